@@ -221,6 +221,15 @@ def run_real(objs):
         rec["stage"] = "post"
         return out
     sim._perform_simulation = spy
+    import quantum_gates._simulation.simulator as simmod
+    orig_single = simmod._single_shot
+    shots_rec = []
+
+    def spy_single(args):
+        out = orig_single(args)
+        shots_rec.append(np.array(out, dtype=float, copy=True))
+        return out
+    simmod._single_shot = spy_single
     np.random.seed(objs.get("np_seed", 0))      # the noisy gate sets draw from numpy's global generator
     try:
         res = sim.run(objs["circ"], objs["layout"], objs["psi0"], objs["shots"], objs["device"], objs["nqubit"])
@@ -228,8 +237,11 @@ def run_real(objs):
         if isinstance(e, (KeyboardInterrupt, SystemExit, MemoryError)):
             raise
         return {"kind": "err", "exc": type(e).__name__, "msg": str(e)[:160], "stage": rec["stage"], "mean": rec["mean"],
-                "result": None}
-    return {"kind": "ok", "exc": None, "msg": "", "stage": rec["stage"], "mean": rec["mean"], "result": res}
+                "result": None, "shots_rec": shots_rec}
+    finally:
+        simmod._single_shot = orig_single
+    return {"kind": "ok", "exc": None, "msg": "", "stage": rec["stage"], "mean": rec["mean"], "result": res,
+            "shots_rec": shots_rec}
 
 
 # ------------------------------------------------------------------------------------------------ abstraction (Python -> model)
@@ -820,6 +832,13 @@ def main(ctx):
         leg = drv.batch([dict(reqs[i], repaired=False) for i, _ in mism])
         for (i, _), a in zip(mism, leg):
             legacy[i] = agree(reals[i], a)[0]
+    # ---- accumulation over the shots, exact: recorded per-shot vectors -> recorded mean
+    mean_idx = [i for i, r in enumerate(reals) if r["mean"] is not None and r["shots_rec"]
+                and all(v.shape == r["mean"].shape for v in r["shots_rec"])]
+    mean_ans = drv.batch([{"op": "mean", "len": int(reals[i]["mean"].shape[0]), "shots": int(objs_l[i]["shots"]),
+                           "results": [[f2b(x) for x in v] for v in reals[i]["shots_rec"]]} for i in mean_idx])
+    mean_mis = [i for i, a in zip(mean_idx, mean_ans)
+                if a.get("ok") != [f2b(x) for x in reals[i]["mean"]] or len(reals[i]["shots_rec"]) != int(objs_l[i]["shots"])]
     # ---- _measurament alone, exact
     mcases = gen_measurament(rng, 3000 if th else 500, 8 if th else 6)
     mreal = [run_measurament_real(c) for c in mcases]
@@ -842,8 +861,10 @@ def main(ctx):
     cov["valid_stream_sizes"] = dict(sorted(size_hist.items()))
     cov["valid_stream_measured_subsets"] = dict(sorted(meas_hist.items()))
     cov["measurament_direct"] = {"cases": len(mcases), "outcomes": dict(merr), "mismatches": len(mmis)}
+    cov["shot_accumulation"] = {"cases": len(mean_idx), "mismatches": len(mean_mis),
+                                "shots_histogram": dict(collections.Counter(str(int(objs_l[i]["shots"])) for i in mean_idx))}
     cov["traces_validated_against_impl"] = len(cases) + len(mcases)
-    cov["correspondence_mismatches"] = len(mism) + len(mmis)
+    cov["correspondence_mismatches"] = len(mism) + len(mmis) + len(mean_mis)
     cov["mismatches_explained_by_pinned_tree_model"] = sum(1 for v in legacy.values() if v)
     cov["unspecified_calls_returning_improper_mapping"] = improper_results[:12]
     cov["repeated_measure_results"] = repeated[:6]
@@ -906,6 +927,11 @@ def main(ctx):
         ctx.violation({"kind": "correspondence-measurament"}, {"call": c, "real": a, "model": b, "count": len(mmis),
                       "broken": "correspondence _measurament vs QG.Model.RunValidate.measurement"},
                       "model and _measurament disagree", no_failing_input=True)
+    if mean_mis:
+        i = mean_mis[0]
+        ctx.violation({"kind": "correspondence-mean"}, {"case": cases[i], "count": len(mean_mis),
+                      "broken": "correspondence r_sum/shots vs QG.Model.RunValidate.meanOfShots"},
+                      "model and the accumulation over the shots disagree", no_failing_input=True)
     if not lean.ok and not fails:
         ctx.violation({"kind": "proof"}, {"broken": lean.failed}, "Lean obligations of C14 do not check; the oracle passes "
                       "on every explored call", no_failing_input=True)
